@@ -32,19 +32,37 @@ def parse_cf(line):
     m, rest = f[:i], f[i + 1:]
     j = rest.index("|")
     s, scope = rest[:j], rest[j + 1] if len(rest) > j + 1 else ""
+    extra = rest[j + 2] if len(rest) > j + 2 else ""
+    hazard = "K" in extra
     md = {"kind": m[0]} if m[0] != "ok" else {"kind": "ok", "status": m[1], "flow": m[2], "last": m[3], "out": m[4],
                                                "ghost": m[5] if len(m) > 5 else ""}
+    md["hazard"] = hazard      # Scope.v parser_hazard: a `case` inside a ( ... ) subshell
+    md["stage_call"] = "U" in extra    # Scope.v stage_call_hazard: function call in a stage of a multi-stage pipeline
     sd = {"kind": s[0]} if s[0] == "fuel" else {"kind": s[0], "last": s[1], "out": s[2]}
     return md, sd, scope
 
 
 def bash_run(script, timeout=5):
+    """one oracle run in its own session/process group; the whole group is killed on timeout and after completion,
+    so that nothing (e.g. a spinning `while continue`, a stray pipeline stage) survives the case"""
+    import os, signal
+    p = subprocess.Popen(["/usr/bin/bash", "-c", script], stdin=subprocess.DEVNULL, stdout=subprocess.PIPE,
+                         stderr=subprocess.DEVNULL, start_new_session=True)
     try:
-        r = subprocess.run(["/usr/bin/bash", "-c", script], stdout=subprocess.PIPE, stderr=subprocess.DEVNULL,
-                           timeout=timeout)
-        return {"status": str(r.returncode), "out": r.stdout.decode("utf-8", "replace")}
+        out, _ = p.communicate(timeout=timeout)
+        res = {"status": str(p.returncode), "out": out.decode("utf-8", "replace")}
     except subprocess.TimeoutExpired:
-        return {"status": "timeout", "out": ""}
+        res = {"status": "timeout", "out": ""}
+    finally:
+        try:
+            os.killpg(p.pid, signal.SIGKILL)
+        except (ProcessLookupError, PermissionError):
+            pass
+        try:
+            p.communicate(timeout=5)
+        except Exception:
+            pass
+    return res
 
 
 def bash_many(scripts):
@@ -52,7 +70,16 @@ def bash_many(scripts):
         return list(ex.map(bash_run, scripts))
 
 
-def known_class(m, scope, ignore=()):
+def syntax_error_like(r):
+    """what the harness reports when brush rejects the whole script: nothing ran, fatal error, status 2"""
+    return r is not None and r["status"] == "2" and r["flow"] == "X" and r["last"] == "2" and r["out"] == ""
+
+
+def known_class(m, scope, ignore=(), r=None):
+    """class of a program (decided by the Coq predicates through entry `cf`), given brush's result `r` for the
+    parser class: KF-C02-esac-rparen = Scope.v parser_hazard (a `case` inside a subshell) AND brush rejected the script"""
+    if "KF-C02-esac-rparen" not in ignore and m.get("hazard") and syntax_error_like(r):
+        return "KF-C02-esac-rparen"
     for where, letter, fid in CLASS_OF:
         if fid not in ignore and letter in (scope if where == "scope" else m.get("ghost", "")):
             return fid
@@ -114,17 +141,23 @@ def evaluate(ctx, progs, bash_sample=0, tolerate=None):
         if in_fixed_class(m, fixed):
             # the run passed a divergence point that has been repaired in the code: spec is the reference
             stats["model_obsolete_in_fixed_class"] += 1
-            if not code_eq_spec(r, s) and known_class(m, scope, ignore=fixed) is None:
+            if not code_eq_spec(r, s) and known_class(m, scope, ignore=fixed, r=r) is None:
                 cand.append(i)
             continue
-        kc = known_class(m, scope)
+        kc = known_class(m, scope, r=r)
         in_thm = scope == "" and m["ghost"] == ""
         if in_thm:
             stats["in_theorem"] += 1
         elif kc is None:
             stats["outside_theorem_pipes_only"] += 1
         eq_spec = code_eq_spec(r, s)
-        if not code_eq_model(r, m):
+        if kc == "KF-C02-esac-rparen":
+            pass            # brush's parser rejected the script: nothing ran, the interpreter model does not apply
+        elif "S" in scope and m.get("stage_call") and not code_eq_model(r, m):
+            # known class stray-break + a function called from a pipeline stage: brush's "not yet implemented" error
+            # leaves Pipeline::execute as an Err, which the model has no outcome for (Scope.v stage_call_hazard)
+            stats["model_not_applicable_stage_call"] = stats.get("model_not_applicable_stage_call", 0) + 1
+        elif not code_eq_model(r, m):
             if kc and eq_spec:
                 stats["repaired_upstream"] += 1
             else:
@@ -140,7 +173,7 @@ def evaluate(ctx, progs, bash_sample=0, tolerate=None):
             # code = bash != spec: the spec is wrong here, never a violation
             spec_bash_dis.append({"script": scripts[i], "spec": s, "bash": b})
             continue
-        kc = known_class(m, scope, ignore=fixed)
+        kc = known_class(m, scope, ignore=fixed, r=r)
         v = {"input": scripts[i], "why": "brush: %r; specification (bash semantics): %r; bash: %r" % (r, s, b),
              "class": {"scope": scope, "ghost": m["ghost"]}}
         if kc:
@@ -190,6 +223,8 @@ def new_violation(ctx, ps):
     impl = dict(zip(keep, [parse_impl(l) for l in ctx.impl("c02", [[sg.render(ps[i])] for i in keep])]))
     out = [False] * len(ps)
     for i in keep:
+        if known_class(cf[i][0], cf[i][2], r=impl[i]) is not None:
+            continue        # a reduction step must not wander into a known class (e.g. the parser finding)
         if not code_eq_spec(impl[i], cf[i][1]):
             out[i] = not code_eq_bash(impl[i], bash_run(sg.render(ps[i])))
     return out
@@ -225,6 +260,8 @@ def witnesses():
 
 TEXT_PROBES = [
     ("KF-C02-esac-rparen", "( case x in x) echo a ;; esac )\necho \"?=$?\"\n"),
+    ("KF-C02-esac-rparen", "( case x in x) echo a ;; esac | cat )\necho \"?=$?\"\n"),
+    ("KF-C02-esac-rparen", "( ! case x in (x) echo a ;; esac )\necho \"?=$?\"\n"),
     ("KF-C02-nested-subshell", "( ( exit 3 ) )\necho \"?=$?\"\n"),
 ]
 
